@@ -20,6 +20,7 @@ from ..worlds import COMP
 OPS = "M=XIDS"
 LENS = (1, 2, 3)
 QPAT = (0, 9, 10, 25, 41)
+QPAT2 = (0, 1, 2, 9, 10, 19, 20, 28, 29, 38, 39, 41, 25)     # both sides of every quality-class border
 
 
 def pile_table(seq, with_indels=True):
@@ -321,8 +322,8 @@ class C06(Check):
                     for p, b in var[1]:
                         qq[colpos[p]] = b
                 seq = "".join(qq)
-                quals = [QPAT[(i + start) % 5] for i in range(len(seq))]
-                mq = QPAT[(len(cig) + start) % 5] if QPAT[(len(cig) + start) % 5] != 41 else 60
+                quals = [QPAT2[(i + start) % 13] for i in range(len(seq))]
+                mq = QPAT2[(len(cig) + start) % 13] if QPAT2[(len(cig) + start) % 13] != 41 else 60
                 sm = shell(gene)
                 norm, muts = collections.defaultdict(list), collections.defaultdict(list)
                 sm._parse_read("frag", start, cigt, seq, norm, muts, mq, quals)
